@@ -52,7 +52,7 @@ func c07() {
 	names := []string{"a", "b"}
 	all := gen.Enumerate(1, names, gen.AllLeaves())
 	// add phantom variants
-	all = append(all, gen.Phantom(nil), gen.Phantom(map[string]*core.Entry{"a": gen.File(gen.D1, false), "b": gen.Untracked()}),
+	all = append(all, gen.Problematic("q"), gen.Dir(map[string]*core.Entry{"a": gen.Problematic("q")}), gen.Phantom(nil), gen.Phantom(map[string]*core.Entry{"a": gen.File(gen.D1, false), "b": gen.Untracked()}),
 		gen.Dir(map[string]*core.Entry{"a": gen.Phantom(map[string]*core.Entry{"b": gen.Link("t1")})}))
 
 	checkPair := func(b, t *core.Entry) {
